@@ -685,7 +685,7 @@ func r05e(c *core.Ctx) {
 			e += strings.Join(truthConds(cnd.Cond), " OR ")
 		}
 	}
-	c.Check(strings.Contains(e, "(c.nextQid > 65535)=true") && strings.Contains(e, "(len(c.queue) == 0)") && !strings.Contains(e, " OR "), "retire-when-exhausted-and-idle", cl.Pos(), del, "an exhausted connection (nextQid > 65535) is closed once no waiter is left", e)
+	c.Check(strings.Contains(e, "(c.nextQid > 65535)") && !strings.Contains(e, "(c.nextQid > 65535)=false") && strings.Contains(e, "(len(c.queue) == 0)") && !strings.Contains(e, "(len(c.queue) == 0)=false") && !strings.Contains(e, " OR "), "retire-when-exhausted-and-idle", cl.Pos(), del, "an exhausted connection (nextQid > 65535) is closed once no waiter is left", e)
 	held, _ := lockHeldAt(del, cl, ".m")
 	c.Check(!held, "retire-outside-lock", cl.Pos(), del, "closeWithErr (which takes the mutex itself) is called after the mutex was released", "")
 }
